@@ -32,6 +32,13 @@ def parse(paths):
                 checks.setdefault(name, {})[m.group(1)] = {"exit": int(m.group(2)), "runs": int(m.group(3)), "violating_observations": int(m.group(5))}
     return verify, checks
 
+NOT_CAUGHT = {
+    "C03b_2": "needs a server tick above 2^31 (wrapping order makes the first update tick look older than the client's initial tick 0); the workload keeps ticks below 2^22 because the unchanged library itself misorders ticks across that distance (DESIGN.md observation O4), so the region is outside the domain in which the oracles are sound",
+    "C08b_2": "needs a replicated linked-spawn hierarchy (replicate::<ChildOf>) whose parent and child are hidden in consecutive ticks; the simulator does not replicate linked relationships as components (domain rule R4: client-side recursive despawn is Bevy semantics, see also observation O9)",
+    "C13b_1": "only affects events emitted while the client is in the transitional Connecting state; the property promises handling for the four configurations, and the unchanged library itself discards such events when the connection attempt succeeds, so the C13 model makes no promise for them",
+    "C16_2": "needs a component reference to the server entity to reach the client before the pre-spawn mapping does (the client then holds a placeholder for it); on the unchanged library that history leaves the earlier reference pointing to the superseded placeholder (observation O7), so the pre-spawn workload only maps entities that were never referenced (domain rule R5)",
+}
+
 def main():
     verify, checks = parse(sys.argv[1:])
     out_root = os.path.join(ROOT, "seeded")
@@ -41,11 +48,11 @@ def main():
         if not v.get("confirmed"):
             print("not confirmed:", name, v)
             continue
-        m = re.match(r"(C\d\d)_(\d)$", name)
+        m = re.match(r"(C\d\d)(b?)_(\d)$", name)
         if not m:
             continue
-        pid, k = m.groups()
-        src = os.path.join(WT, pid, "mutants", k)
+        pid, rnd, k = m.groups()
+        src = os.path.join(WT, pid, "mutants2" if rnd else "mutants", k)
         if not os.path.isdir(src):
             print("missing source dir", src)
             continue
@@ -60,7 +67,7 @@ def main():
         det = checks.get(name, {})
         meta = {
             "breaks_property": pid,
-            "origin": "independent sub-agent given only the property text and a scratch worktree",
+            "origin": "independent sub-agent given only the property text and a scratch worktree" + (" (round 2: told to avoid the code sites of the round-1 changes for this property)" if rnd else ""),
             "summary": agent_meta.get("summary", ""),
             "needs_to_manifest": agent_meta.get("needs_to_manifest", ""),
             "confirmed_by_me": {
@@ -73,6 +80,8 @@ def main():
             "checks_run_against_it": {c: ("VIOLATION reported" if r["exit"] == 1 else "silent" if r["exit"] == 0 else "inconclusive") + f" ({r['violating_observations']} violating observations in {r['runs']} runs)" for c, r in sorted(det.items())},
             "caught_by": sorted(c for c, r in det.items() if r["exit"] == 1),
         }
+        if name in NOT_CAUGHT:
+            meta["why_not_caught"] = NOT_CAUGHT[name]
         with open(os.path.join(dst, "meta.json"), "w") as f:
             json.dump(meta, f, indent=1)
         kept.append((name, meta["caught_by"]))
